@@ -127,3 +127,46 @@ Definition C18_case (s : sc_options) (o : cb_options) (io : in_options) (used : 
              end)
       && (exit =? spec_exit tbl st) in
   (corr, spec, 0).
+
+(* ------------------------------------------------------------------ controlled schedules
+   A probe invocation scans a list of named pipes with --no-mmap: every worker blocks in
+   std::fs::read until the test driver writes the content of "its" pipe.  The driver observes how
+   many pipes are being read at the same time (= number of live workers, as long as enough
+   entries remain) and chooses the completion order; it releases the next pipe only after the
+   output of the previous one has appeared, so stdout is a *sequence* determined by the model:
+   the blocks of the files in completion order.
+
+     held k   = number of pipes simultaneously open for reading before the k-th release
+     order    = the paths in the order they were released
+     entries  = the scan list (order in which the producer sends) *)
+Fixpoint held_ok (n : N) (remaining : N) (held : list N) : bool :=
+  match held with
+  | [] => true
+  | h :: rest => (h =? N.min n remaining) && held_ok n (remaining - 1) rest
+  end.
+
+Definition C18_probe_case (s : sc_options) (o : cb_options) (io : in_options) (used : scan_params)
+           (ds : list decl) (tbl : list lib_entry) (entries order : list bytes) (held : list N)
+           (out err : list bytes) (exit : N) : bool * bool * N :=
+  let lib := lib_of tbl in
+  let n := nb_threads io 1 in
+  let corr :=
+      params_eqb used (params_of_flags s o)
+      && mset_eqb bytes_eqb order entries
+      && held_ok n (nlen entries) held
+      && (nlen held =? nlen entries)
+      && list_eqb bytes_eqb out (flat_map (fun p => stdout_of (worker_lines o lib p)) order)
+      && mset_eqb bytes_eqb err (flat_map (fun p => stderr_of (worker_lines o lib p)) order)
+      && (exit =? 0) in
+  let spec :=
+      spec_params_ok s o used
+      && match concat_opt (map (fun p => match lookup tbl p with
+                                         | Some e => spec_file_lines o ds p (le_results e)
+                                         | None => None
+                                         end) order) with
+         | Some ls => list_eqb bytes_eqb out ls
+         | None => false
+         end
+      && match i_threads io with Some k => held_ok (N.max 1 k) (nlen entries) held | None => true end
+      && (exit =? 0) in
+  (corr, spec, 0).
